@@ -982,13 +982,13 @@ pub fn gen_corpus_with(seed: u64, n_fam: usize, q_per_fam: usize, adv: bool) -> 
             let j14 = "日本".repeat(7);
             let big5k = format!("{}tail", "lorem ipsum ".repeat(420));
             let big12k = format!("head{}", "x-y ".repeat(3000));
-            for t in [mk(600, &e20, &ab20), mk(1100, &ab20, &e20), mk(130, &j14, &format!("{}xx", "ж".repeat(20))), mk(20, &big5k, "ab"), mk(20, &big12k, &big5k)] {
+            for t in [mk(600, &e20, &ab20), mk(1100, &ab20, &e20), mk(130, &j14, &format!("{}xx", "ж".repeat(20))), mk(20, &big5k, "ab"), mk(20, &big12k, &big5k), mk(12500, "Aa", "BB")] {
                 contents.push(t);
                 fam.push(contents.len() - 1);
             }
             let mut fq = vec![];
             for q in ["$.huge[?@ > 3]", "$.huge[?@ == 0]", "$.huge[::50]", "$.huge[-1]", "$.huge[512]", "$.huge[?@ == 's1']", "$[?length(@) == 20]", "$[?length(@) > 30]", "$..[?length(@) == 40]",
-                      "$[?length(@.s) == 40]", "$.u[?length(@) <= 22]", "$.huge[100:140]", "$.huge[?match(@, 's.')]", "$..s", "$[?count(@.huge[*]) > 512]", "$.wide.*", "$.wide[?@ == 3]", "$.wide.k64", "$.wide['k1','k70','k2']", "$.wide..*", "$[?count(@.*) > 64]", "$[?search(@, 'tail')]", "$[?match(@, 'ab')]", "$..[?search(@, 'a')]", "$[?match(@.s, 'ab')]", "$[?length(@) > 4096]", "$.u[?search(@, 'ipsum')]"] {
+                      "$[?length(@.s) == 40]", "$.u[?length(@) <= 22]", "$.huge[100:140]", "$.huge[?match(@, 's.')]", "$..s", "$[?count(@.huge[*]) > 512]", "$.wide.*", "$.wide[?@ == 3]", "$.wide.k64", "$.wide['k1','k70','k2']", "$.wide..*", "$[?count(@.*) > 64]", "$[?search(@, 'tail')]", "$[?match(@, 'ab')]", "$..[?search(@, 'a')]", "$[?match(@.s, 'ab')]", "$[?length(@) > 4096]", "$.u[?search(@, 'ipsum')]", "$.huge[10500]", "$.huge[-1]", "$.huge[10000:10003]", "$.huge[12344,11000,9999]", "$.huge[?@ == 's2'][0]", "$[?match(@, 'Aa')]", "$[?match(@, 'BB')]", "$..[?search(@, 'Aa')]", "$..[?search(@, 'BB')]"] {
                 queries.push(q.to_string());
                 fq.push(queries.len() - 1);
                 q_other_family.push(f);
@@ -1012,7 +1012,8 @@ pub fn gen_corpus_with(seed: u64, n_fam: usize, q_per_fam: usize, adv: bool) -> 
             base = json!({"elems": [gen::scalar(&mut rng), "a", "ab", ["a", "b"], ["x"], {"a": "xay", "b": 1, "re": "x.y"}, 2, 0], "list": ["a", "b", 1], "x": {"a": "ab", "b": [1, 2, 3]}, "a": base,
                 "flag": rng.chance(1, 2), "lim": rng.range(0, 2), "re": *rng.pick(gen::PATTERNS),
                 "long": (0..*rng.pick(&[9i64, 12, 17, 33, 40])).collect::<Vec<i64>>(),
-                "names": ["d", "a", "c", "b", "z", "k", "e", "aa", "ab", "xay"]});
+                "names": ["d", "a", "c", "b", "z", "k", "e", "aa", "ab", "xay"],
+                "codes": ["Aa", "BB", "AaBB", "BBAa", "aA"]});
         }
         let mut fam = vec![];
         let mut push = |v: &Value, contents: &mut Vec<String>| -> usize {
@@ -1097,6 +1098,21 @@ pub fn gen_corpus_with(seed: u64, n_fam: usize, q_per_fam: usize, adv: bool) -> 
             queries.push(q);
             fq.push(queries.len() - 1);
             q_other_family.push(qrng.below(n_fam));
+        }
+        if special {
+            // pattern pairs of equal length and equal h*31+c hash, over strings that tell them apart
+            let f0 = if qrng.chance(1, 2) { "match" } else { "search" };
+            let (pa, pb) = if qrng.chance(1, 2) { ("Aa", "BB") } else { ("AaBB", "BBAa") };
+            for pat in [pa, pb] {
+                let q = format!("$.codes[?{}(@, '{}')]", f0, pat);
+                if !queries.contains(&q) {
+                    queries.push(q);
+                    fq.push(queries.len() - 1);
+                    q_other_family.push(qrng.below(n_fam));
+                }
+            }
+            let (ia, ib) = (queries.len() - 2, queries.len() - 1);
+            twins.push((ia, ib));
         }
         families.push(fam);
         fam_queries.push(fq);
